@@ -342,15 +342,15 @@ def check(ctx):
         core.log(str({k: x for k, x in r.items() if k not in ("yaml",)})[:1500])
         ctx.cov["evaluations"] = 1
         return core.finish(ctx)
-    n = 6000 if ctx.thorough else 1200
+    n = 18000 if ctx.thorough else 1200
     for i in range(n):
         g = G(ctx.rng)
         p, res, dup = g.program()
         cases.append((g, p, res, dup))
     out = progs.compile_many([c[1] for c in cases])
-    resolve_tie(ctx, [c[1] for c in cases] + progs.gen_programs(ctx, 400 if ctx.thorough else 120))
+    resolve_tie(ctx, [c[1] for c in cases] + progs.gen_programs(ctx, 1200 if ctx.thorough else 120))
     # the evaluator tie (eval.rs vs Model/Eval.v) and the hypotheses / conclusion of C08_evaluation_is_lexical
-    evaltie.run(ctx, [c[1] for c in cases[: (1500 if ctx.thorough else 300)]] + progs.gen_programs(ctx, 300 if ctx.thorough else 60, start=5000)
+    evaltie.run(ctx, [c[1] for c in cases[: (4500 if ctx.thorough else 300)]] + progs.gen_programs(ctx, 900 if ctx.thorough else 60, start=5000)
                 + evaltie.repo_corpus())
     seen = set()
     for (g, p, res, dup), r in zip(cases, out):
